@@ -211,10 +211,11 @@ def run_cases(ctx, cases, prop="C02", extra_pred=None, classify_fn=None):
 
 def run(ctx):
     ctx.make_overlay(need_kernel=True)
-    ctx.regen_all()
+    ctx.regen_all(needed=("py2v_reject.py",))  # Gen/RejectSites.v: the four rejection sites as the source has them now
     ok = ctx.build_models(MODELS)
     if ok:
         ctx.build_props()
+        ctx.build_props("Props/C02g.vo")  # the generated rejection sites are the model
         ctx.build_props("Props/C02p.vo")  # survival probability L_i/L_max as the measure of the rule's acceptance set (Coquelicot)
     cases = load_corpus("C02") + gen_cases(ctx)
     n_eval = nt = 0
